@@ -12,6 +12,14 @@ CHECKS = {
  "C01": dict(engine="progfuzz", level="exploration", design="4/C01",
    technique="property-based differential testing: generated programs x proptest-generated inputs against a reference evaluator",
    text="Generated positive Ascent programs (all recursion shapes, join plans and index shapes of the rule language) are compiled by the real macro and run on proptest-generated input databases; every relation must equal, as a set and as a row multiset, the least model computed by an independent naive evaluator. Exploration is the right level: the property quantifies over programs x inputs and the oracle is exact."),
+ "C02": dict(engine="progfuzz", level="exploration", design="4/C02",
+   technique="property-based differential testing: every generated program in its parallel forms across rayon pool sizes with seeded schedule perturbation, against the reference evaluator",
+   text="Each generated program (relations, lattices, negation, aggregation) is compiled as ascent!, ascent_par!, ascent_par! with inter_rule_parallelism and ascent_run_par!, and the parallel forms are run in pools of 1-16 threads with seeded perturbation at hook points inside the concurrent insert paths; results must equal the reference model (sets, lattice values, row multisets), without panics or hangs. Interleavings are sampled, so this is exploration; the deterministic content (the parallel code path computes the serial result) is decided as strongly as C01.",
+   note="Trusted base as for C01, plus: schedules are sampled (perturbation hooks, pool sweep, oversubscription), not enumerated; a hang is reported as inconclusive (exit 2) by the watchdog."),
+ "C05": dict(engine="progfuzz", level="exploration", design="4/C05",
+   technique="property-based testing of a row-multiset invariant on generated re-derivation-heavy programs, serial and parallel with schedule perturbation",
+   text="Programs built so that the same tuple or lattice key is derived many times (duplicate rules, several heads into one relation, projections, inputs that are also derivable, caller duplicates) are run serially and in parallel pools with perturbation between the presence check and the insertion; the dumped rows of every relation must be exactly the caller's rows plus one row per newly derived tuple, one row per lattice key.",
+   note="Trusted base as for C01; thread interleavings are sampled, not enumerated."),
  "C03": dict(engine="progfuzz", level="exploration", design="4/C03",
    technique="property-based differential testing of generated monotone lattice programs against a reference least-fixed-point evaluator",
    text="Generated monotone lattice programs over every shipped lattice type are compiled and run on generated weighted graphs; each lattice relation must hold exactly one row per derivable key with the reference least-fixed-point value, and relations derived from lattice values must match."),
